@@ -118,6 +118,7 @@ def convertClass : PyKind → LitClass
 def litCondHolds (k : PyKind) : LitCond → Bool
   | .always => true
   | .isNan => k = .floatNan
+  | .isInf => k = .floatInf
 
 /-- `Column._lit` -/
 def columnLit (k : PyKind) : LitClass :=
@@ -127,6 +128,7 @@ def columnLit (k : PyKind) : LitClass :=
   | some (_, _, .tuple) => .tuple
   | some (_, _, .varmap) => .varmap
   | some (_, _, .nanCast ty) => .castStr ty
+  | some (_, _, .infCast _ _ ty) => .castStr ty
   | some (_, _, .tsCast naive aware) => .castStr (if k = .datetimeTz then aware else naive)
   | some (_, _, .convert) => convertClass k
   | none => convertClass k
@@ -173,6 +175,24 @@ def nanLitTy : Option String :=
   match litChain.find? (fun e => e.2.1 = .isNan) with
   | some (_, _, .nanCast ty) => some ty
   | _ => none
+
+/-- the texts `_lit` writes for +inf / -inf inside its CAST (from `Gen.litChain`) -/
+def infLitTexts : Option (String × String) :=
+  match litChain.find? (fun e => e.2.1 = .isInf) with
+  | some (_, _, .infCast pos neg _) => some (pos, neg)
+  | _ => none
+
+/-- the engine's reading of a text under CAST(… AS DOUBLE) as an infinity: `some false` = +inf, `some true` = -inf
+    (spellings DuckDB accepts, compared without case: assumed, validated by the stream on every infinity) -/
+def readInfText (s : String) : Option Bool :=
+  let l := s.toList.map Char.toLower
+  if l = "inf".toList ∨ l = "infinity".toList ∨ l = "+inf".toList ∨ l = "+infinity".toList then some false
+  else if l = "-inf".toList ∨ l = "-infinity".toList then some true
+  else none
+
+/-- is the literal `_lit` writes for an infinity (nested cells, plain operands) typed DOUBLE by the engine, so that
+    it pulls the float literals it shares an array / VALUES column with to DOUBLE? -/
+def infNestedDouble : Bool := typedRight .floatInf (columnLit .floatInf)
 
 /-- significand bits the engine keeps for the finite floats of a VALUES column / array literal.
     `unifiesToNan`: the group contains a NaN literal and no DOUBLE-typed literal, so the engine unifies
